@@ -35,10 +35,11 @@ type vfSideCfg struct {
 	NetworkTypes []NetworkType
 	TieBreaker   uint64
 	Ufrag, Pwd   string
-	NilDisc      bool // leave DisconnectedTimeout unset: the documented default applies (5 s, lite 10 s); DiscTimeout is set to it
-	NilFail      bool // leave FailedTimeout unset: default 25 s; FailTimeout is set to it
-	AutoRenom    bool // WithAutomaticRenomination (1 ns interval): the controlling agent renominates on its own during check rounds
-	TCPPassive   bool // also gather ICE-TCP passive host candidates through the simulated TCP mux (active TCP disabled)
+	NilDisc      bool   // leave DisconnectedTimeout unset: the documented default applies (5 s, lite 10 s); DiscTimeout is set to it
+	NilFail      bool   // leave FailedTimeout unset: default 25 s; FailTimeout is set to it
+	NomAttr      uint16 // WithNominationAttribute: a custom STUN attribute type for the nomination value
+	AutoRenom    bool   // WithAutomaticRenomination (1 ns interval): the controlling agent renominates on its own during check rounds
+	TCPPassive   bool   // also gather ICE-TCP passive host candidates through the simulated TCP mux (active TCP disabled)
 }
 
 type vfSide struct {
@@ -260,6 +261,9 @@ func (s *vfSession) newSide(cfg vfSideCfg) (*vfSide, error) {
 	}
 	if cfg.AutoRenom {
 		opts = append(opts, WithAutomaticRenomination(time.Nanosecond))
+	}
+	if cfg.NomAttr != 0 {
+		opts = append(opts, WithNominationAttribute(cfg.NomAttr))
 	}
 	a, err := newAgentFromConfig(ac, opts...)
 	if err != nil {
@@ -1023,7 +1027,9 @@ func (s *vfSession) emittedCheck(from int) {
 	uc := append([]string{}, s.ucWhileControlled...)
 	s.ucMu.Unlock()
 	if len(uc) > 0 {
-		s.viol("C03", "controlled-sent-use-candidate", fmt.Sprintf("%d Binding request(s) with USE-CANDIDATE left an agent while its role was controlled: %v", len(uc), uc), nil)
+		for _, prop := range []string{"C03", "C20"} { // C03: a controlled agent never sends USE-CANDIDATE; C20: only a controlling agent can renominate
+			s.viol(prop, "controlled-sent-use-candidate", fmt.Sprintf("%d Binding request(s) with USE-CANDIDATE left an agent while its role was controlled: %v", len(uc), uc), nil)
+		}
 	}
 	for _, d := range s.sw.wireFrom(from) {
 		if d.Forged || d.Stun == nil || !d.Stun.Binding || d.Stun.Class != "request" {
